@@ -81,6 +81,14 @@ class _Break(Exception):
     pass
 
 
+class _LocalFn:
+    """A function defined inside a generator function, with the environment it was defined in."""
+
+    def __init__(self, fn: ast.FunctionDef, env: dict):
+        self.fn = fn
+        self.env = env
+
+
 class _Continue(Exception):
     pass
 
@@ -267,6 +275,12 @@ class GenWalker:
             return tuple(vals) if isinstance(node, ast.Tuple) else vals
         if isinstance(node, ast.Subscript):
             base = self.ev(node.value, env)
+            if isinstance(node.slice, ast.Slice) and isinstance(base, (list, tuple, str)):
+                lo = self.ev(node.slice.lower, env) if node.slice.lower is not None else None
+                hi = self.ev(node.slice.upper, env) if node.slice.upper is not None else None
+                st_ = self.ev(node.slice.step, env) if node.slice.step is not None else None
+                if all(x is None or (isinstance(x, int) and not isinstance(x, bool)) for x in (lo, hi, st_)):
+                    return base[lo:hi:st_]
             idx = self.ev(node.slice, env) if not isinstance(node.slice, ast.Slice) else None
             if isinstance(base, (list, tuple, str)) and isinstance(idx, int):
                 try:
@@ -432,6 +446,25 @@ class GenWalker:
         args = [self.ev(a, env) for a in node.args]
         kwargs = {k.arg: self.ev(k.value, env) for k in node.keywords if k.arg}
 
+        if isinstance(f, _LocalFn):
+            if self.depth > 6:
+                raise AnalysisError(f"{self.construct}: local helper {f.fn.name} nested too deeply")
+            local = dict(f.env)  # reads of enclosing names see the values at the call
+            names = [a.arg for a in f.fn.args.args]
+            for nm, v in zip(names, args, strict=False):
+                local[nm] = v
+            local.update(kwargs)
+            for nm, d in zip(names[len(names) - len(f.fn.args.defaults):], f.fn.args.defaults):
+                if nm not in local or (nm not in kwargs and names.index(nm) >= len(args)):
+                    local[nm] = self.ev(d, f.env)
+            self.depth += 1
+            try:
+                self.block(f.fn.body, local)
+                return None
+            except _Return as r:
+                return r.value
+            finally:
+                self.depth -= 1
         if isinstance(f, _Bound):
             base, attr = f.base, f.attr
             if isinstance(base, Gen):
@@ -699,6 +732,9 @@ class GenWalker:
         if isinstance(s, ast.Return):
             raise _Return(self.ev(s.value, env) if s.value else None)
         if isinstance(s, (ast.Assert, ast.Pass)):
+            return
+        if isinstance(s, ast.FunctionDef):
+            env[s.name] = _LocalFn(s, env)  # a local helper of the generator (def emit(child): ...), followed when called
             return
         if isinstance(s, ast.Raise):
             raise AnalysisError(f"{self.construct}: generator raises on this variant: {ast.unparse(s)}")
